@@ -106,6 +106,16 @@ def run(ctx):
         ctx.count("sweep:cases")
         check_tree(ctx, {"text": t, "pre": []})
     ctx.info["template_sweep_size"] = len(texts)
+    # one edit away from every rule template (operator, leaf kind, operand order): near-miss shapes
+    near = G.neighbour_texts()
+    step = 3 if ctx.tier == "quick" else 1  # quick: every third text, the offset chosen by the seed
+    for i, t in enumerate(near):
+        if i % step != ctx.seed % step or (i // step) % ctx.nshards != ctx.shard:
+            continue
+        ctx.count("evaluations")
+        ctx.count("near-miss:cases")
+        check_tree(ctx, {"text": t, "pre": []})
+    ctx.info["near_miss_sweep_size"] = f"{len(near)} texts one edit away from a rule template; every {step}th checked in this tier"
     # bounded-exhaustive small expressions: every tree with <= 2 (quick) / 3 (thorough) binary operators over 6 leaves
     small = G.small_expressions(2 if ctx.tier == "quick" else 3)
     for i, t in enumerate(small):
